@@ -12,6 +12,6 @@ P = {
         quick=[{"name": "enum", "mode": "enum", "count": 10000000, "max_size": 2, "shards": 12, "max_seconds": 80, "shrink_seconds": 60},
                {"name": "rand", "mode": "run", "count": 600, "max_size": 60, "shards": 8, "max_seconds": 60, "shrink_seconds": 60}],
         thorough=[{"name": "enum", "mode": "enum", "count": 100000000, "max_size": 3, "shards": 12, "max_seconds": 1500},
-                  {"name": "rand", "mode": "run", "count": 10000, "max_size": 100, "shards": 4, "max_seconds": 1500}],
+                  {"name": "rand", "mode": "run", "count": 40000, "max_size": 100, "shards": 16, "max_seconds": 1500}],
     ),
 }
